@@ -452,6 +452,37 @@ pub open spec fn f64_exact(bits: u64, ri: int, rs: int) -> bool {
     else if e == 0 { float_exact(neg, m, -1074, ri, rs) }
     else { float_exact(neg, m + 0x10_0000_0000_0000, e - 1075, ri, rs) }
 }
+/// a normal float is not zero: its exact decimal has a non-zero unscaled integer
+pub proof fn lemma_f32_normal_nonzero(bits: u32, ri: int, rs: int)
+    requires f32_exact(bits, ri, rs), f32_category(bits) == core::num::FpCategory::Normal
+    ensures ri != 0
+{
+    let e = ((bits >> 23) & 0xff) as int;
+    let m = (bits & 0x7f_ffff) as int;
+    assert(e != 0);
+    lemma_pow10_pos(rs);
+    let frac = m + 0x80_0000;
+    if ri == 0 {
+        assert(iabs(ri) == 0); assert(0 * pow2i(-(e - 150)) == 0);
+        assert(pow2i(e - 150) >= 1) by { reveal(pow); if e - 150 > 0 { lemma_pow_positive(2, (e - 150) as nat); } }
+        assert(frac * pow2i(e - 150) * pow10(rs) > 0) by (nonlinear_arith) requires frac > 0, pow2i(e - 150) >= 1, pow10(rs) > 0;
+    }
+}
+pub proof fn lemma_f64_normal_nonzero(bits: u64, ri: int, rs: int)
+    requires f64_exact(bits, ri, rs), f64_category(bits) == core::num::FpCategory::Normal
+    ensures ri != 0
+{
+    let e = ((bits >> 52) & 0x7ff) as int;
+    let m = (bits & 0xf_ffff_ffff_ffff) as int;
+    assert(e != 0);
+    lemma_pow10_pos(rs);
+    let frac = m + 0x10_0000_0000_0000;
+    if ri == 0 {
+        assert(iabs(ri) == 0); assert(0 * pow2i(-(e - 1075)) == 0);
+        assert(pow2i(e - 1075) >= 1) by { reveal(pow); if e - 1075 > 0 { lemma_pow_positive(2, (e - 1075) as nat); } }
+        assert(frac * pow2i(e - 1075) * pow10(rs) > 0) by (nonlinear_arith) requires frac > 0, pow2i(e - 1075) >= 1, pow10(rs) > 0;
+    }
+}
 pub proof fn lemma_shl_one_is_pow2(tz: u64)
     requires tz < 63
     ensures (1u64 << tz) as int == pow2i(tz as int)
